@@ -7,6 +7,7 @@
 //!   filter  = any | exact=IP | set=IP+IP+.. | wc=PATTERN
 //!   peer    = source IP the client socket is bound to before connecting to <bind_ip> (or to 127.0.0.1 when
 //!             the server is bound to a wildcard address)
+//! or:         reuse <variant+variant..> <bind_ip> <filter> <address added afterwards or -> <peers>   (one C-ABI filter object, several servers)
 //! output line: one code per peer, comma separated: S served (Modbus reply / TLS ServerHello arrived),
 //!   C closed without a byte, O open and silent, B<hex> other bytes, E:<kind> connect error; or FAIL:<why>
 use super::p5_common::*;
@@ -155,11 +156,11 @@ fn start_rust(env: &Env, variant: &str, ctor: &str, bind_ip: IpAddr, filter: Add
     Err(format!("bind failed repeatedly: {last}"))
 }
 
-fn start_ffi(env: &Env, variant: &str, bind_ip: IpAddr, spec: &str) -> Result<(Server, u16), String> {
+/// create one C-ABI server of the given variant from an EXISTING filter object (which the caller keeps)
+fn start_ffi_with(env: &Env, variant: &str, bind_ip: IpAddr, filter: *mut rodbus_ffi::AddressFilter) -> Result<(*mut rodbus_ffi::Server, u16), String> {
     let mut last = String::new();
     for _ in 0..8 {
         unsafe {
-            let filter = ffi_filter(spec)?;
             let map = simple_device_map();
             let port = free_port(&bind_ip.to_string());
             let ip = cstr(&bind_ip.to_string());
@@ -193,9 +194,8 @@ fn start_ffi(env: &Env, variant: &str, bind_ip: IpAddr, spec: &str) -> Result<(S
             };
             ffi::rodbus_device_map_destroy(map);
             if rc == 0 {
-                return Ok((Server::Ffi(out, filter), port));
+                return Ok((out, port));
             }
-            ffi::rodbus_address_filter_destroy(filter);
             last = param_error_name(rc);
             if rc != ffi::ParamError::ServerBindError as i32 {
                 return Err(format!("server_create:{last}"));
@@ -205,8 +205,93 @@ fn start_ffi(env: &Env, variant: &str, bind_ip: IpAddr, spec: &str) -> Result<(S
     Err(format!("bind failed repeatedly: {last}"))
 }
 
+fn start_ffi(env: &Env, variant: &str, bind_ip: IpAddr, spec: &str) -> Result<(Server, u16), String> {
+    let filter = unsafe { ffi_filter(spec)? };
+    match start_ffi_with(env, variant, bind_ip, filter) {
+        Ok((s, port)) => Ok((Server::Ffi(s, filter), port)),
+        Err(e) => {
+            unsafe { ffi::rodbus_address_filter_destroy(filter) };
+            Err(e)
+        }
+    }
+}
+
+fn probe_all(env: &Env, bind_ip: IpAddr, port: u16, tls: bool, peers: &str) -> String {
+    let mut out = Vec::new();
+    for peer in peers.split(',') {
+        let src: IpAddr = match peer.parse() {
+            Ok(x) => x,
+            Err(_) => {
+                out.push("E:peer".to_string());
+                continue;
+            }
+        };
+        let dst_ip: IpAddr = if bind_ip.is_unspecified() {
+            match src {
+                IpAddr::V4(_) => "127.0.0.1".parse().unwrap(),
+                IpAddr::V6(_) => "::1".parse().unwrap(),
+            }
+        } else {
+            bind_ip
+        };
+        let r = env.rt.block_on(probe(src, SocketAddr::new(dst_ip, port), tls, Duration::from_millis(2500)));
+        out.push(r.code());
+    }
+    out.join(",")
+}
+
+/// reuse <variant+variant..> <bind_ip> <filter> <address added afterwards or -> <peers>:
+/// ONE rodbus_address_filter_t, several servers created from it in the given order; then (optionally)
+/// rodbus_address_filter_add on the object, then rodbus_address_filter_destroy; only then the servers are probed.
+/// Every server must keep the filter it was created with. Output: <variant>:<codes> per server, ';' separated.
+fn reuse(env: &Env, p: &[&str]) -> String {
+    if p.len() != 6 {
+        return "FAIL:syntax".into();
+    }
+    let (variants, bind, spec, added, peers) = (p[1], p[2], p[3], p[4], p[5]);
+    let bind_ip: IpAddr = match bind.parse() {
+        Ok(x) => x,
+        Err(_) => return "FAIL:bind_ip".into(),
+    };
+    let filter = match unsafe { ffi_filter(spec) } {
+        Ok(f) => f,
+        Err(e) => return format!("FAIL:{e}"),
+    };
+    let mut servers = Vec::new();
+    for v in variants.split('+') {
+        match start_ffi_with(env, v, bind_ip, filter) {
+            Ok((s, port)) => servers.push((v, s, port)),
+            Err(e) => {
+                for (_, s, _) in &servers {
+                    unsafe { ffi::rodbus_server_destroy(*s) };
+                }
+                unsafe { ffi::rodbus_address_filter_destroy(filter) };
+                return format!("FAIL:{e}");
+            }
+        }
+    }
+    let mut add_rc = String::new();
+    if added != "-" {
+        let c = cstr(added);
+        let rc = unsafe { ffi::rodbus_address_filter_add(filter, c.as_ptr()) };
+        add_rc = format!(";add={}", param_error_name(rc));
+    }
+    unsafe { ffi::rodbus_address_filter_destroy(filter) };
+    let mut out = Vec::new();
+    for (v, _, port) in &servers {
+        out.push(format!("{v}:{}", probe_all(env, bind_ip, *port, *v != "tcp", peers)));
+    }
+    for (_, s, _) in &servers {
+        unsafe { ffi::rodbus_server_destroy(*s) };
+    }
+    out.join(";") + &add_rc
+}
+
 fn scenario(env: &Env, line: &str) -> String {
     let p: Vec<&str> = line.split_whitespace().collect();
+    if p.first() == Some(&"reuse") {
+        return reuse(env, &p);
+    }
     if p.len() != 6 {
         return "FAIL:syntax".into();
     }
